@@ -85,6 +85,22 @@ def gen_orderly(rnd):
     return c
 
 
+def racy(rng, c):
+    """make some task completions racy: the task finishes, but the read / disconnect that follows is delivered
+    before the task's done-callback runs (possible in asyncio when both are queued in one loop iteration)"""
+    evs = c["evs"]
+    out = []
+    for i, e in enumerate(evs):
+        nxt = evs[i + 1][0] if i + 1 < len(evs) else None
+        if e[0] in ("ma", "md", "mr", "mn", "ha", "hr", "ua", "ur") and nxt in ("d", "l") and rng.random() < 0.7:
+            out.append([e[0] + "!"] + list(e[1:]))
+        else:
+            out.append(e)
+    c = dict(c)
+    c["evs"] = out
+    return c
+
+
 _LOOP = None
 
 
@@ -127,7 +143,8 @@ class ConnFamily(Family):
 
     def gen(self, rng: random.Random, n: int):
         for i in range(n):
-            yield gen_orderly(rng) if i % 3 == 0 else gen_case(rng)
+            c = gen_orderly(rng) if i % 3 == 0 else gen_case(rng)
+            yield racy(rng, c) if i % 4 == 0 else c
 
     def impl(self, case):
         loop = get_loop()
@@ -142,7 +159,7 @@ class ConnFamily(Family):
     def same(self, exp, obs):
         return (sim.match_tokens(exp["tokens"], obs["acts"]) and exp["h"] == obs["h"] and exp["u"] == obs["u"] and exp["m"] == obs["m"]
                 and exp["content"] == obs["content"] and exp["timer"] == obs["timer"] and obs["dropped"] == 0 and not obs["exc"]
-                and (not self.check_lens or exp["lens"] == obs["lens"]))
+                and (not self.check_lens or obs.get("racy") or exp["lens"] == obs["lens"]))
 
     def key(self, case, obs):
         ok, what = sim.wellformed_trace(obs["acts"])
